@@ -732,7 +732,7 @@ func runC13() int {
 		tot := exploreScenarios(rep, scs, pb, 1, 4000, time.Now().Add(5*time.Minute), sigOf)
 		return rep.Finish(tot.coverage(nil))
 	}
-	tot, code := exploreSharded(rep, "C13", c13Scenarios(u), pb, 1, 4000, deadlineFor(8*time.Minute, 100*time.Minute), sigOf)
+	tot, code := exploreSharded(rep, "C13", c13Scenarios(u), pb, 1, 4000, deadlineFor(8*time.Minute, 60*time.Minute), sigOf)
 	if code != 0 {
 		return code
 	}
